@@ -324,6 +324,7 @@ package stree
 //@   requires [C01] sorted: forall a int, b int :: {nodes[a], nodes[b]} 0 <= a && a < b && b < len(nodes) ==> rank(cmp, nodes[a].X) < rank(cmp, nodes[b].X)
 //@   ensures  [C01] nil: (len(nodes) == 0) == (result == nil)
 //@   ensures  [C01] shape: treeOK(result, cmp) && cntOf(result) == len(nodes)
+//@   ensures  [C01] card: result != nil ==> card(result.keys) == len(nodes)
 //@   ensures  [C01] members: forall k int :: {nodes[k]} 0 <= k && k < len(nodes) ==> inD(result, nodes[k]) && inK(result, rank(cmp, nodes[k].X)) && result.rep[rank(cmp, nodes[k].X)] == nodes[k].X
 //@   ensures  [C01] onlyNodes: forall y ref :: {inD(result, y)} inD(result, y) ==> 0 <= ni[y] && ni[y] < len(nodes) && nodes[ni[y]] == y
 //@   ensures  [C01] onlyKeys: forall k int :: {inK(result, k)} inK(result, k) ==> 0 <= ki[k] && ki[k] < len(nodes) && rank(cmp, nodes[ki[k]].X) == k
@@ -355,6 +356,7 @@ package stree
 //@   at after "root.right = extract(nodes[mid+1:])": ghost root.keys = lambda k int :: k == rank(cmp, root.X) || inK(root.left, k) || inK(root.right, k)
 //@   at after "root.right = extract(nodes[mid+1:])": ghost root.desc = lambda y int :: y == root || inD(root.left, y) || inD(root.right, y)
 //@   at after "root.right = extract(nodes[mid+1:])": ghost root.cnt = 1 + cntOf(root.left) + cntOf(root.right)
+//@   at after "root.right = extract(nodes[mid+1:])": apply cardSplit(root.keys, ite(root.left == nil, emptyset(root.keys), root.left.keys), ite(root.right == nil, emptyset(root.keys), root.right.keys), rank(cmp, root.X))
 //@   at after "root.right = extract(nodes[mid+1:])": ghost root.rep = lambda k int :: ite(k == rank(cmp, root.X), root.X, ite(inK(root.left, k), root.left.rep[k], root.right.rep[k]))
 //@   at after "root.right = extract(nodes[mid+1:])": ghost ni = lambda y int :: ite(y == root, mid, ite(inD(root.left, y), niL[y], mid + 1 + niR[y]))
 //@   at after "root.right = extract(nodes[mid+1:])": ghost ki = lambda k int :: ite(k == rank(cmp, root.X), mid, ite(inK(root.left, k), kiL[k], mid + 1 + kiR[k]))
